@@ -181,6 +181,7 @@ func runOne(t *testing.T, prop string, seed uint64, w Workload, rng *simrt.Rand,
 	out := &RunOut{Prop: prop, Seed: seed, Work: w}
 	raceBefore := simrt.RaceErrors()
 	logOff := raceLogOffset()
+	raceAtTeardown, logAtTeardown := -1, int64(-1)
 	t.Run("r", func(t *testing.T) {
 		defer func() {
 			if p := recover(); p != nil {
@@ -210,13 +211,26 @@ func runOne(t *testing.T, prop string, seed uint64, w Workload, rng *simrt.Rand,
 			for _, p := range s.TaskPanics() {
 				x.Violate("panic", "libtask-panic:"+stripTask(p), strings.Join(s.TaskPanicStacks(), "\n"))
 			}
+			// Teardown unwinds whatever is still parked with runtime.Goexit; the deferred calls of those
+			// tasks run against shims that no longer block, i.e. without the happens-before edges of the
+			// locks they pretend to take. Accesses made then are not an execution of the program: race
+			// reports written from here on are not counted (a race of the program itself is reported when
+			// its second access happens, which is before this point).
+			raceAtTeardown, logAtTeardown = simrt.RaceErrors(), raceLogOffset()
 			out.Leaked = s.Teardown()
 			x.Note(fmt.Sprint(s.St.Sig, s.St.Steps, s.St.SimNanos, out.End))
 			out.Hash = x.h
 		})
 	})
-	if d := simrt.RaceErrors() - raceBefore; d > 0 {
-		reps := readRaceReports(logOff)
+	raceAfter := simrt.RaceErrors()
+	if raceAtTeardown >= 0 {
+		if n := raceAfter - raceAtTeardown; n > 0 {
+			out.Count("race_reports_during_teardown_ignored", n)
+		}
+		raceAfter = raceAtTeardown
+	}
+	if d := raceAfter - raceBefore; d > 0 {
+		reps := readRaceReports(logOff, logAtTeardown)
 		out.RaceReports = reps
 		seen := map[string]bool{}
 		for _, rp := range reps {
